@@ -59,25 +59,39 @@ void fftw_destroy_plan(fftw_plan p) { if(p == reinterpret_cast<fftw_plan>(r_toke
 }
 namespace fftw = multi::fftw;
 
+// does the recorded plan match the views dimension by dimension?  (fa, fb) >= 0: batch dimensions fa (outer) and fb (inner) are taken as ONE fused loop
+static bool plan_matches(Spec<D> const& si, Spec<D> const& so, bool const* which, int fa, int fb) {
+  bool used_d[4] = {false, false, false, false}; bool used_h[4] = {false, false, false, false}; bool ok = true;
+#pragma unroll
+  for(int d = 0; d < D; ++d) if(si.d[d].size > 1 && d != fa) {
+    L const n = d == fb ? si.d[fa].size * si.d[fb].size : si.d[d].size;
+    bool found = false;
+#pragma unroll
+    for(int k = 0; k < 4; ++k) {
+      if(which[d]) { if(!found && k < r_rank && !used_d[k] && r_dn[k] == n && r_dis[k] == si.d[d].stride && r_dos[k] == so.d[d].stride) { used_d[k] = true; found = true; } }
+      else { if(!found && k < r_howmany && !used_h[k] && r_hn[k] == n && r_his[k] == si.d[d].stride && r_hos[k] == so.d[d].stride) { used_h[k] = true; found = true; } }
+    }
+    ok = ok && found;
+  }
+#pragma unroll
+  for(int k = 0; k < 4; ++k) { if(k < r_rank && !used_d[k]) ok = ok && r_dn[k] == 1; if(k < r_howmany && !used_h[k]) ok = ok && r_hn[k] == 1; }
+  return ok;
+}
 static void check_plan(Spec<D> const& si, Spec<D> const& so, bool const* which, C const* ibase, C const* obase, long sign) {
   vf_assert(r_plans == 1 && r_execs == 1 && r_destroys == 1 && r_order_ok == 1, "one plan, executed once with that plan before it is destroyed exactly once");
   vf_assert(r_unmodelled == 0, "MODEL the plan fits the recorder (at most four transformed and four batch dimensions)");
   // the multi-dimensional DFT is separable and batches are independent: the ORDER of the entries in either list does not matter, and entries of
   // size 1 (and view dimensions of size 1) contribute nothing.  Every view dimension of size > 1 must be matched by exactly one entry of the list
   // it belongs to, with its size, input stride and output stride; no other entry of size > 1 may exist.
-  bool used_d[4] = {false, false, false, false}; bool used_h[4] = {false, false, false, false}; bool ok = true;
+  // Additionally accepted: two batch dimensions a (outer), b (inner) whose strides nest in BOTH operands (stride[a] == size[b]*stride[b]) fused into
+  // one batch loop (size[a]*size[b], stride[b]) - it enumerates the same (input, output) offset pairs.
+  bool ok = plan_matches(si, so, which, -1, -1);
 #pragma unroll
-  for(int d = 0; d < D; ++d) if(si.d[d].size > 1) {
-    bool found = false;
+  for(int fa = 0; fa < D; ++fa) {
 #pragma unroll
-    for(int k = 0; k < 4; ++k) {
-      if(which[d]) { if(!found && k < r_rank && !used_d[k] && r_dn[k] == si.d[d].size && r_dis[k] == si.d[d].stride && r_dos[k] == so.d[d].stride) { used_d[k] = true; found = true; } }
-      else { if(!found && k < r_howmany && !used_h[k] && r_hn[k] == si.d[d].size && r_his[k] == si.d[d].stride && r_hos[k] == so.d[d].stride) { used_h[k] = true; found = true; } }
-    }
-    ok = ok && found;
+    for(int fb = 0; fb < D; ++fb) if(fa != fb && !which[fa] && !which[fb] && si.d[fa].size > 1 && si.d[fb].size > 1
+        && si.d[fa].stride == si.d[fb].size * si.d[fb].stride && so.d[fa].stride == so.d[fb].size * so.d[fb].stride) ok = ok || plan_matches(si, so, which, fa, fb);
   }
-#pragma unroll
-  for(int k = 0; k < 4; ++k) { if(k < r_rank && !used_d[k]) ok = ok && r_dn[k] == 1; if(k < r_howmany && !used_h[k]) ok = ok && r_hn[k] == 1; }
   vf_assert(ok, "the plan transforms exactly the chosen dimensions and batches over the others, each with the view's size, input stride and output stride");
   vf_assert(reinterpret_cast<C const*>(r_in) == ibase && reinterpret_cast<C const*>(r_out) == obase, "in/out are the bases of the input and output views");
   vf_assert(r_xin == r_in && r_xout == r_out, "execute uses the planned pointers");
